@@ -290,8 +290,16 @@ where
                     Expr::Ident(ident.clone())
                 }
             }
-            JSXElementName::JSXMemberExpr(expr) => Expr::JSXMember(expr.clone()),
-            JSXElementName::JSXNamespacedName(name) => Expr::JSXNamespacedName(name.clone()),
+            JSXElementName::JSXMemberExpr(expr) => util::jsx_member_to_expr(expr),
+            JSXElementName::JSXNamespacedName(name) => {
+                HANDLER.with(|handler| {
+                    handler.span_err(name.span, "Namespaced tag names are not supported.")
+                });
+                Expr::Lit(Lit::Str(quote_str!(format!(
+                    "{}:{}",
+                    name.ns.sym, name.name.sym
+                ))))
+            }
         }
     }
 
